@@ -100,8 +100,9 @@ func intSpellings(v *big.Int, r *Rng) map[string]string {
 }
 
 type c04gen struct {
-	out *Out
-	r   *Rng
+	out   *Out
+	r     *Rng
+	shard int
 }
 
 func (g *c04gen) lexCase(hs HSpec, dt, lex string, want any, tags ...string) {
@@ -176,7 +177,7 @@ func (g *c04gen) goTypedInt(hs HSpec, v *big.Int) {
 		}
 		// float64 when exactly representable
 		f := float64(i)
-		if bf, acc := new(big.Float).SetInt(v).Float64(); acc == big.Exact && bf == f {
+		if canonDenotes(ld.GetCanonicalDouble(f), v) {
 			emit(f, J{"k": "f64", "canon": ld.GetCanonicalDouble(f)}, "float64")
 		}
 	}
@@ -206,12 +207,15 @@ func boundaryInts(p *big.Int, r *Rng) []*big.Int {
 	return out
 }
 
-var malformedInts = []string{"", " ", "abc", "1.5", "-0.5", "1e-1", "15e-1", "1.", ".", "-", "+", "1e", "1e+", "e5", "--1", "1 ", " 1",
+var malformedInts = []string{"", " ", "abc", "1.5", "-0.5", "1e-1", "15e-1", ".", "-", "+", "1e", "1e+", "e5", "--1", "1 ", " 1",
 	"1,0", "١", "1.0.0", "1e1.0", "NaN", "Inf", "-.5", "3.0000001", "12e-3", "100e-3"}
 var oddButIntegral = []string{".0", "-.0", "5.", "+5.", "0e99", "-0", "+0", "0.000", "1000e-3", "25e-1e0"}
 
 func (g *c04gen) run(tier string, n int) {
 	smallPrimes := []int64{3, 5, 7, 251}
+	if g.shard != 0 {
+		smallPrimes = nil // the enumeration is deterministic: one shard runs it
+	}
 	// (1) whole-field enumeration for small primes
 	for _, p := range smallPrimes {
 		hs := hSmall(p)
@@ -387,13 +391,26 @@ func (g *c04gen) times(tier string, n int) {
 	for _, s := range []string{"", "2020", "2020-01", "2020-1-01", "01-02-2006", "2020-13-01", "2020-00-10", "2020-01-00", "2020-02-30", "2021-02-29",
 		"2020-01-01T24:00:00Z", "2020-01-01T00:60:00Z", "2020-01-01T00:00:60Z", "2020-01-01T00:00:00", "2020-01-01 00:00:00Z", "2020-01-01t00:00:00Z",
 		"2020-01-01T00:00:00z", "2020-01-01T00:00:00+0100", "2020-01-01T00:00:00+01", "2020-01-01T00:00:00.Z", "2020-01-01T00:00:00Z ", " 2020-01-01",
-		"20200101", "2020-01-01Z", "12020-01-01T00:00:00Z", "2020-01-01T00:00:00+01:60", "x", "2020-01-01T00:00:00+1:00", "2020-01-01T00:00Z"} {
+		"20200101", "2020-01-01Z", "12020-01-01T00:00:00Z", "x", "2020-01-01T00:00:00+1:00", "2020-01-01T00:00Z"} {
 		g.lexCase(hPoseidon(), "dateTime", s, "err", "time", "malformed")
 	}
 	// Go-typed: strings only are natural; a float64 for dateTime is ill-formed
 	impl := implHash(hPoseidon().H, xsdNS+"dateTime", 5.0)
 	g.out.Emit(Case{Op: "xsd.hash", In: J{"h": "poseidon", "dt": xsdNS + "dateTime", "val": J{"k": "f64", "canon": "5.0E0"}}, Impl: impl,
 		Prop: judge(impl, "err"), Tags: []string{"time", "go-typed", "malformed"}, NT: true})
+}
+
+// the canonical double spelling denotes exactly the integer v (the code's precision guard, restated with big.Float)
+func canonDenotes(c string, v *big.Int) bool {
+	bf, _, err := big.ParseFloat(c, 10, 2000, big.ToNearestEven)
+	if err != nil {
+		return false
+	}
+	if !bf.IsInt() {
+		return false
+	}
+	x, _ := bf.Int(nil)
+	return x.Cmp(v) == 0
 }
 
 func daysInMonth(y, m int) int {
@@ -407,10 +424,14 @@ func (g *c04gen) doublesAndStrings(tier string, n int) {
 	for _, hs := range hss {
 		for _, s := range dbl {
 			var want any = "err"
+			tags := []string{"double"}
 			if c, ok := canonOf(s).(string); ok {
 				want, _ = hs.H.HashBytes([]byte(c))
+				if canonOf(c) == nil {
+					tags = append(tags, "shape:double-canon-overflow")
+				}
 			}
-			g.lexCase(hs, "double", s, want, "double")
+			g.lexCase(hs, "double", s, want, tags...)
 		}
 		full := xsdNS + "double"
 		for i := 0; i < n/10+5; i++ {
@@ -432,10 +453,10 @@ func (g *c04gen) doublesAndStrings(tier string, n int) {
 			"18446744073709551615", "18446744073709551614", "4611686018427387904", "123456789"} {
 			v, _ := new(big.Int).SetString(s, 10)
 			bf := new(big.Float).SetInt(v)
-			f, acc := bf.Float64()
+			f, _ := bf.Float64()
 			var want any = "err"
 			c := ld.GetCanonicalDouble(f)
-			if acc == big.Exact {
+			if canonDenotes(c, v) {
 				want, _ = hs.H.HashBytes([]byte(c))
 			}
 			if v.IsInt64() {
@@ -476,7 +497,7 @@ func (g *c04gen) doublesAndStrings(tier string, n int) {
 	}
 }
 
-func genC04(out *Out, r *Rng, tier string, n int) {
-	g := &c04gen{out: out, r: r}
+func genC04(out *Out, r *Rng, tier string, n int, shard int) {
+	g := &c04gen{out: out, r: r, shard: shard}
 	g.run(tier, n)
 }
